@@ -103,6 +103,8 @@ type Scenario struct {
 	// until the request scope has been closed by its context watcher and returns: the close at the end of the
 	// request is then the second one
 	ReqCancel bool `json:"reqcancel"`
+	// MwPanic: the failing configured middleware panics instead of returning an error
+	MwPanic bool `json:"mwpanic"`
 }
 
 var reqCancels sync.Map // rq -> context.CancelFunc
@@ -219,6 +221,9 @@ func mwFunc(sc *Scenario, i int, rq func() int, s godi.Scope) error {
 	sid, pid := seen(s)
 	emit(M{"ev": "mw", "rq": rq(), "i": i, "scope": sid, "probe": pid})
 	if sc.MwFail == i {
+		if sc.MwPanic {
+			panic("verif: scripted middleware panic")
+		}
 		if sc.MwCanceled {
 			// the failure is (also) a context cancellation - e.g. a lookup that failed because the client went away
 			return fmt.Errorf("%w: %w", errMw, context.Canceled)
